@@ -185,6 +185,22 @@ func c01Atoms(thorough bool) []qAtom {
 		add("map-int32", true, rm.Cmp{L: lhs("boss.tags.h"), Op: ">", R: F(4.5)})
 		add("map-int32", true, rm.Cmp{L: anyOf("reports.tags.h"), Op: "<", R: F(4.5)})
 	}
+	{ // the same set symbol compared twice in one filter, with different literals (per-query symbol state must not leak
+		// from one comparison into the other)
+		for _, sym := range []string{"roles", "reports.s", "reports.roles"} {
+			a := rm.Cmp{L: anyOf(sym), Op: "=", R: S("a")}
+			b := rm.Cmp{L: anyOf(sym), Op: "=", R: S("b")}
+			x := rm.Cmp{L: anyOf(sym), Op: "=", R: S("x")}
+			add("same-symbol-twice", true, rm.And{A: a, B: b})
+			add("same-symbol-twice", true, rm.And{A: b, B: a})
+			add("same-symbol-twice", true, rm.Or{A: x, B: a})
+			add("same-symbol-twice", true, rm.And{A: b, B: rm.Not{A: a}})
+			add("same-symbol-twice", true, rm.And{A: rm.Cmp{L: allOf(sym), Op: "!=", R: S("b")}, B: a})
+			add("same-symbol-twice", true, rm.Or{A: rm.And{A: a, B: x}, B: b})
+		}
+		add("same-symbol-twice", true, rm.And{A: rm.Cmp{L: anyOf("reports.i"), Op: "=", R: I(4)}, B: rm.Cmp{L: anyOf("reports.i"), Op: "=", R: I(5)}})
+		add("same-symbol-twice", true, rm.And{A: rm.Cmp{L: lhs("s"), Op: "=", R: S("a")}, B: rm.Not{A: rm.Cmp{L: lhs("s"), Op: "=", R: S("B")}}})
+	}
 	{ // id and fk symbols
 		add("id", true, rm.Cmp{L: lhs("id"), Op: "=", R: S("e1")})
 		add("id", true, rm.Cmp{L: lhs("id"), Op: ">", R: S("e1")})
